@@ -1,6 +1,7 @@
 package main
 
 import (
+	"strings"
 	"fmt"
 	"go/token"
 	"go/types"
@@ -317,20 +318,50 @@ func c07R2(r *Report) {
 	// link 5: Reader prepends init exactly once
 	r.Fn(reader)
 	okM := false
-	allInstrs(reader, func(in ssa.Instruction) {
-		c, ok := in.(*ssa.Call)
-		if !ok || !isStdCall(c, "io", "", "MultiReader") {
-			return
+	// in Reader itself, or in a private helper it hands (conn, init) to (withInitialData(c, init))
+	for _, f := range p.SrcFuncs() {
+		if relPkg(f) != "protocol" || !(f == reader || p.inUnitOf(f, reader)) {
+			continue
 		}
-		el := variadicElems(c.Call.Args[0])
-		if len(el) != 2 {
-			return
+		// what Reader's init and conn are called in f
+		var initV, connV ssa.Value
+		if f == reader {
+			initV, connV = reader.Params[1], reader.Params[0]
+		} else {
+			calls, esc := p.callSitesOf(f)
+			if len(esc) > 0 || len(calls) != 1 || calls[0].Parent() != reader {
+				continue
+			}
+			for i, a := range calls[0].Common().Args {
+				if i >= len(f.Params) {
+					break
+				}
+				if strip(a) == ssa.Value(reader.Params[1]) {
+					initV = f.Params[i]
+				}
+				if strip(a) == ssa.Value(reader.Params[0]) {
+					connV = f.Params[i]
+				}
+			}
 		}
-		first, _ := strip(el[0]).(*ssa.Call)
-		if first != nil && isStdCall(first, "bytes", "", "NewReader") && first.Call.Args[0] == ssa.Value(reader.Params[1]) && strip(el[1]) == ssa.Value(reader.Params[0]) {
-			okM = true
+		if initV == nil || connV == nil {
+			continue
 		}
-	})
+		allInstrs(f, func(in ssa.Instruction) {
+			c, ok := in.(*ssa.Call)
+			if !ok || !isStdCall(c, "io", "", "MultiReader") {
+				return
+			}
+			el := variadicElems(c.Call.Args[0])
+			if len(el) != 2 {
+				return
+			}
+			first, _ := strip(el[0]).(*ssa.Call)
+			if first != nil && isStdCall(first, "bytes", "", "NewReader") && first.Call.Args[0] == initV && strip(el[1]) == connV {
+				okM = true
+			}
+		})
+	}
 	n++
 	r.Check(okM, "R2", "Reader/MultiReader(init,conn)", reader.Pos(), "init is read before the connection, once", "protocol.Reader does not read MultiReader(bytes.NewReader(init), conn): surplus bytes are lost, duplicated or reordered")
 	// nobody else reads the connection: no Read on a net.Conn in packages peer and tor
@@ -476,76 +507,151 @@ func derivesFrom(v, src ssa.Value, d int) bool {
 func c07R4(r *Report) {
 	p := r.P
 	n := 0
+	// derives: x is v, possibly converted
+	var derives func(x, v ssa.Value) bool
+	derives = func(x, v ssa.Value) bool {
+		for d := 0; d < 6 && x != nil; d++ {
+			if x == v {
+				return true
+			}
+			cv, ok := x.(*ssa.Convert)
+			if !ok {
+				return false
+			}
+			x = cv.X
+		}
+		return false
+	}
+	// decryptsArg: call c runs its idx-th argument through the stream cipher. A call through a function-typed
+	// parameter (decrypt func([]byte) []byte) is accepted provisionally: needFn records the parameter, to be checked
+	// at the call sites of the enclosing helper.
+	decryptsArg := func(c *ssa.Call, idx int, needFn *[]*ssa.Parameter) bool {
+		if isStdCall(c, "crypto/rc4", "Cipher", "XORKeyStream") {
+			return idx == 2
+		}
+		if h := c.Call.StaticCallee(); h != nil {
+			if h.Blocks == nil || !strings.HasPrefix(funcPkgPath(h), modPath) {
+				return false
+			}
+			k := idx
+			if c.Call.IsInvoke() {
+				return false
+			}
+			return xorsParam(h, k)
+		}
+		if prm, ok := c.Call.Value.(*ssa.Parameter); ok && needFn != nil {
+			if _, isSig := prm.Type().Underlying().(*types.Signature); isSig && idx == 0 {
+				*needFn = append(*needFn, prm)
+				return true
+			}
+		}
+		return false
+	}
+	// padHandled: in function f, every place where the buffer is advanced by v (x[v:]) is accompanied by a decrypting
+	// call on x[:v]; v may be handed to a helper of the package, which is then examined in the same way.
+	var padHandled func(f *ssa.Function, v ssa.Value, depth int) (skips int, ok bool)
+	padHandled = func(f *ssa.Function, v ssa.Value, depth int) (int, bool) {
+		var skips []*ssa.Slice
+		type dec struct {
+			c      *ssa.Call
+			needFn []*ssa.Parameter
+		}
+		var decs []dec
+		total, good := 0, true
+		allInstrs(f, func(in ssa.Instruction) {
+			switch x := in.(type) {
+			case *ssa.Slice:
+				if x.Low != nil && derives(x.Low, v) {
+					skips = append(skips, x)
+				}
+			case *ssa.Call:
+				var need []*ssa.Parameter
+				for ai, a := range x.Call.Args {
+					elems := []ssa.Value{a}
+					if ve := variadicElems(a); ve != nil {
+						elems = ve
+					}
+					for _, e := range elems {
+						if sl, okS := e.(*ssa.Slice); okS && sl.Low == nil && sl.High != nil && derives(sl.High, v) && decryptsArg(x, ai, &need) {
+							decs = append(decs, dec{x, need})
+						}
+					}
+					// v handed to a helper
+					if derives(a, v) && depth < 2 {
+						if h := x.Call.StaticCallee(); h != nil && h.Blocks != nil && relPkg(h) == relPkg(f) && !x.Call.IsInvoke() && ai < len(h.Params) && h != f {
+							k, okH := padHandled(h, h.Params[ai], depth+1)
+							if k > 0 {
+								total += k
+								if !okH {
+									good = false
+								}
+								// function-typed parameters of the helper used to decrypt: the caller passes a decrypting function
+								for _, prm := range helperFnParams[h] {
+									for pi, hp := range h.Params {
+										if hp != prm || pi >= len(x.Call.Args) {
+											continue
+										}
+										var fn *ssa.Function
+										switch y := x.Call.Args[pi].(type) {
+										case *ssa.MakeClosure:
+											fn, _ = y.Fn.(*ssa.Function)
+										case *ssa.Function:
+											fn = y
+										}
+										if fn == nil || !xorsParam(fn, 0) {
+											good = false
+										}
+									}
+								}
+							}
+						}
+					}
+				}
+			}
+		})
+		for _, sk := range skips {
+			total++
+			found := false
+			for _, d := range decs {
+				if instrDominates(d.c, sk) || instrDominates(sk, d.c) {
+					found = true
+					helperFnParams[f] = append(helperFnParams[f], d.needFn...)
+				}
+			}
+			if !found {
+				good = false
+			}
+		}
+		return total, good
+	}
 	for _, name := range []string{"ClientHandshake", "ServerHandshake"} {
 		f := p.Func("crypto", name)
 		if !r.Anchor("R4", "crypto."+name, f != nil) {
 			continue
 		}
 		r.Fn(f)
-		// pad lengths: uint16 values read with binary.BigEndian.Uint16 from decrypted stuff, compared > 0
+		// lengths announced by the peer inside the encrypted part: uint16 values read with binary.BigEndian.Uint16
 		allInstrs(f, func(in ssa.Instruction) {
-			iff, ok := in.(*ssa.If)
-			if !ok {
+			c, ok := in.(*ssa.Call)
+			if !ok || calleeObj(c) == nil || calleeObj(c).Name() != "Uint16" || calleeObj(c).Pkg() == nil || calleeObj(c).Pkg().Path() != "encoding/binary" {
 				return
 			}
-			bo, ok := iff.Cond.(*ssa.BinOp)
-			if !ok || bo.Op != token.GTR {
-				return
-			}
-			z, okz := constInt(bo.Y)
-			if !okz || z != 0 {
-				return
-			}
-			lenv := bo.X
-			c, okc := lenv.(*ssa.Call)
-			if !okc || calleeObj(c) == nil || calleeObj(c).Name() != "Uint16" {
-				return
+			helperFnParams = map[*ssa.Function][]*ssa.Parameter{}
+			k, okH := padHandled(f, c, 0)
+			if k == 0 {
+				return // the value does not advance the buffer
 			}
 			n++
-			key := fmt.Sprintf("%s/pad(%s)-decrypted", name, exprStr(lenv))
-			// in the true branch: a Slice buf[:len] is passed to a call of the decrypt closure
-			thenB := iff.Block().Succs[0]
-			found := false
-			for b := range reachableFrom(thenB) {
-				if !thenB.Dominates(b) {
-					continue
-				}
-				for _, i2 := range b.Instrs {
-					cc, ok := i2.(*ssa.Call)
-					if !ok {
-						continue
-					}
-					// XORKeyStream on the cipher directly, or a closure/helper of this package that runs that
-					// argument through XORKeyStream (decrypt(v), crypt(dec, v...))
-					if isStdCall(cc, "crypto/rc4", "Cipher", "XORKeyStream") {
-						if len(cc.Call.Args) == 3 && derivesFromSliceHigh(cc.Call.Args[2], lenv) {
-							found = true
-						}
-						continue
-					}
-					h := cc.Call.StaticCallee()
-					if h == nil || h.Blocks == nil || relPkg(h) != relPkg(f) {
-						continue
-					}
-					for ai, a := range cc.Call.Args {
-						elems := []ssa.Value{a}
-						if ve := variadicElems(a); ve != nil {
-							elems = ve
-						}
-						for _, e := range elems {
-							if e != nil && isByteSlice(e.Type()) && derivesFromSliceHigh(e, lenv) && ai < len(h.Params) && xorsParam(h, ai) {
-								found = true
-							}
-						}
-					}
-				}
-			}
-			r.Check(found, "R4", key, iff.Pos(), "the pad announced by the peer is run through the stream cipher before it is skipped",
+			key := fmt.Sprintf("%s/pad(%s)-decrypted", name, exprStr(c))
+			r.Check(okH, "R4", key, c.Pos(), "bytes of a length announced by the peer are run through the stream cipher wherever the buffer is advanced past them",
 				"the pad of peer-announced length is skipped without being decrypted: the RC4 keystream falls out of step and every later byte decrypts to garbage (only visible with a peer that sends a non-empty pad)")
 		})
 	}
 	r.Sentinel("R4", n, 2)
 }
+
+// helperFnParams: per helper, the function-typed parameters through which it decrypts (scratch of c07R4).
+var helperFnParams = map[*ssa.Function][]*ssa.Parameter{}
 
 // derivesFromSliceHigh: v is x[:h] (or a variable assigned from it) with h derived from lenv.
 func derivesFromSliceHigh(v, lenv ssa.Value) bool {
